@@ -45,12 +45,11 @@ Section Spec.
     | TOpt _ => Some VNone
     | TBox t' => option_map VPtr (absent_of t')
     | TRes t' => option_map VResOk (absent_of t')
-    | TStructR c _ | TEnumR c _ _ =>
+    | TStructR c _ | TEnumR c _ _ | TNewtypeR c _ | TUnitR c =>        (* whatever its shape, a receiver's declared from_none *)
         match ci_from_none c with
         | Some f => match interp_fn f VUnit with Ok (VSome v) => Some v | _ => None end
         | None => None
         end
-    | TNewtypeR _ _ | TUnitR _ => None
     end.
 
   Definition default_value (cdef : option value) (f : finfo) (t : ty) : option value :=
